@@ -108,6 +108,14 @@ def run(ctx):
         ctx.hist["apefile:layout:" + kind] += 1
         reqs.append((line, impl, case))
         # property-level statements for the plain layouts
+        if k == "ok" and kind == "double-header":
+            # left-over 24-byte header stubs of pre-Mutagen PyMusepack belong to the tag region: they go with it
+            audio = data[:alen]
+            if b"APETAGEX" not in audio:
+                exp = audio if op == "delete" else audio + tag
+                if out != exp:
+                    ctx.violation("apefile:%s:stale-header-stub" % op, "%s on a tag preceded by left-over header stubs did not leave exactly "
+                                  "the audio%s (%d bytes, expected %d)" % (op, "" if op == "delete" else " and the new tag", len(out), len(exp)), case)
         if k == "ok" and kind in ("none", "tag", "tag-noheader", "tag+v1", "tag+lyrics+v1", "v1-only"):
             audio_len = {"none": len(data), "v1-only": len(data)}.get(kind, alen)
             audio = data[:audio_len]
